@@ -40,6 +40,41 @@ PROPS['C20'] = {
 
 NOT_APPLICABLE = {}
 
+PROPS['C02'] = {
+    'modules': ['c02', ('c18', ['R18.3']), ('c05', ['A5.8']), ('c03', ['R3.6'])],
+    'level': 'other',
+    'quick_configs': ['default'],
+    'thorough_configs': ALL,
+    'controls': [],
+    'floors': {'default': {'B0': 20, 'B1': 1, 'B2': 1, 'B3': 2, 'B4': 1, 'B5.cast': 3, 'B5.index': 1, 'B6': 1, 'R18.3': 1,
+                           'A5.8.truncate': 1, 'R3.6': 1}},
+    'rule_text': 'one obligation per panic site of File read/write/seek/truncate (B0), per device transfer of File '
+                 '(length clipped by two min() against cluster rest and file rest / 4 GiB limit: B1, B2), per cursor '
+                 'assignment (moves by the device-returned count; only read/write/seek assign it: B3), the size update '
+                 '(must-call after a non-empty write, only grows, equals the cursor: B4), seek (unrepresentable target '
+                 '-> InvalidInput, clamp to size, no `as` narrowing of 64-bit offsets, no wrapping arithmetic, shortcut '
+                 'and chain walk use one cluster index: B5) and truncate (size := cursor, chain released: B6)',
+    'explanation': 'The clauses of the statement that are visible in the shape of the code are decided on the MIR of '
+                   'src/file.rs for all offsets and buffer lengths at once: the length given to the device depends, '
+                   'through min(), on cluster_size - offset % cluster_size and on size - offset (read) or MAX_FILE_SIZE '
+                   '- offset (write); the cursor advance originates in the count returned by the device call (value '
+                   'origin through moves, `?` and casts); every Ok exit of write with a non-zero count crosses '
+                   'update_dir_entry_after_write, whose set_size(offset) is dominated by a strict comparison with the '
+                   'recorded size; in seek the None arm of the converted target reaches Err(InvalidInput) on every path, '
+                   'the arm target > size assigns the size, every narrowing `as` cast in the I/O paths is in a closed '
+                   'table with its reason, and the same-cluster shortcut compares the same cluster index that the chain '
+                   'walk is derived from; truncate sets the size to the cursor on every returning path and releases the '
+                   'chain (A5.8, R3.6). All arithmetic sites of these functions are proved panic-free by the interval '
+                   'analysis (B0). That the bytes read back equal the bytes written is a value property of the running '
+                   'system and is not decided.',
+    'claim': 'Clipping, cursor movement, size update, seek rejection/clamping and truncate bookkeeping hold on every path '
+             'for every offset and length; byte-exact contents are not decided.',
+    'level_note': 'dependence is flow-insensitive inside a function (may miss a violation that reuses the right values in '
+                  'the wrong order, cannot raise an alarm on a path that does not exist)',
+    'technique': 'static analysis: MIR data dependence / value origin + dominance + interval abstract interpretation',
+    'assumptions': COMMON_ASSUMPTIONS + ['the device returns a count not larger than the buffer it was given'],
+}
+
 PROPS['C09'] = {
     'modules': ['c09'],
     'level': 'other',
